@@ -52,7 +52,7 @@ def k1(ctx: Ctx, K: Kinds, only=None):
     """Constructor sinks receive encoded text of the right role."""
     model = ctx.model
     rule = "K1"
-    ctx.rule(rule, floor=15, what="every constructor sink receives encoded text of that component's role (never decoded / raw URL text)")
+    ctx.rule(rule, floor=15 if not only else 3, what="every constructor sink receives encoded text of that component's role (never decoded / raw URL text)")
     for fi in funcs(model):
         if only and fi.qual not in only:
             continue
